@@ -7,16 +7,18 @@ def _dominates(body, s, x):
     return x not in flow.reach(body, [0], stop_blocks=frozenset([s])) or s == x
 
 
-def _const_bool_assigns(body, local):
-    """blocks assigning a constant bool to `local`: [(bi, value)] or None if it has other defs"""
+def _const_bool_assigns(body, local, lenient=False):
+    """blocks assigning a constant bool to `local`: [(bi, value)] or None if it has other defs (lenient: other defs are skipped)"""
     out = []
     for df in body.defs().get(local, []):
         if df["kind"] != "assign" or df.get("proj"):
+            if lenient:
+                continue
             return None
         rv = df["rv"]
         if rv["k"] == "use" and isinstance(rv["ops"][0], dict) and rv["ops"][0].get("c") == "int" and rv["ops"][0].get("ty") == "bool":
             out.append((df["bi"], rv["ops"][0]["v"] == "1"))
-        else:
+        elif not lenient:
             return None
     return out
 
